@@ -213,6 +213,9 @@ def is_assertable(obj: Any, recursion_depth: int = 0) -> bool:
     if isinstance(obj, float):
         # Creating exact assertions on float values is usually not desirable.
         return False
+    if isinstance(obj, complex) and obj != obj:  # noqa: PLR0124
+        # A complex number with a NaN component is not equal to itself.
+        return False
 
     tp_ = type(obj)
     if is_enum(tp_) or is_primitive_type(tp_) or is_none_type(tp_):
